@@ -52,7 +52,17 @@ def timed_check(solver, timeout_ms):
     if getattr(solver, "_symx_timeout", None) != int(timeout_ms):      # re-configuring a solver is not free: only on change
         solver.set("timeout", int(timeout_ms))
         solver._symx_timeout = int(timeout_ms)
-    timer = threading.Timer(timeout_ms / 1000.0 + 3.0, solver.ctx.interrupt)
+    lock, state = threading.Lock(), {"done": False}
+    zctx = solver.ctx      # the timer thread must hold no reference to the solver itself: dropping the last one there would
+                           # free z3 objects concurrently with the main thread (z3 contexts are not thread-safe)
+
+    def fire():
+        # interrupt only while the check is still running: a late interrupt would cancel the NEXT solver call
+        with lock:
+            if not state["done"]:
+                zctx.interrupt()
+
+    timer = threading.Timer(timeout_ms / 1000.0 + 3.0, fire)
     timer.daemon = True
     timer.start()
     try:
@@ -60,6 +70,8 @@ def timed_check(solver, timeout_ms):
     except z3.Z3Exception:
         return z3.unknown
     finally:
+        with lock:
+            state["done"] = True
         timer.cancel()
 
 
@@ -341,6 +353,8 @@ def _q_install():
                 return _TENSOR_BINOP(name, o, self) if rev else _TENSOR_BINOP(name, self, o)
             if isinstance(o, Sym):
                 return NotImplemented
+            if type(o) is float and name != "pow" and math.isfinite(o):
+                o = Fraction(o)      # a float is a dyadic rational: stay exact (the symbolic mode treats it the same way)
             r = base(self, o)
             if type(r) is Fraction:
                 return Q(r)
@@ -358,6 +372,8 @@ def _q_install():
                     return _TENSOR_BINOP(name, self, o)
                 if isinstance(o, Sym):
                     return NotImplemented
+                if type(o) is float and math.isfinite(o):
+                    o = Fraction(o)
                 return base(self, o)
             return f
         setattr(Q, f"__{name}__", mkc(name, base))
